@@ -159,7 +159,7 @@ def _reachable_after(fn, node, last) -> bool:
     blocked = {}
     for n in g.nodes:
         if n.kind == "test":
-            v = _test_value(n.ast, last, assume_global=False)
+            v = _test_value(n.ast, last, assume_global=False, fn=fn)
             if v is not None:
                 blocked[n.id] = "F" if v else "T"
     reach = g.reachable(g.entry, follow_exc=False, edge_filter=lambda a, b, lab: not (a in blocked and lab == blocked[a]))
@@ -215,6 +215,152 @@ def live_emissions(prog):
         for v in vs:
             table.setdefault((u, v), []).append(e)
     return table
+
+
+def run_rules_dispatch(prog, rr):
+    """Registry.run_rules interpreted by the analyser (minieval) on stub rule objects: a Primary that matches, a Primary
+    that does not, a Check (whatever its run() returns).  Which dependants are handed to the recursive call, and what they
+    see of the context, is observed -- not the shape of the code.  Returns {"bad": {"named": [...], "_rule": [...],
+    "state": [...]}, "site": {...}, "scenarios": n}."""
+    import collections
+    from ..minieval import Evaluator, Obj, Raised, Unsupported
+    a = rr.node.args
+    params = [x.arg for x in a.posonlyargs + a.args]
+    if len(params) != 3 or a.vararg or a.kwarg:
+        raise AnalysisError(f"{rr.key}: expected the signature (self, context, rule), found {params}")
+    reg = prog.cls("Registry")
+    methods = {("Registry", n): m.node for n, m in reg.methods.items()}
+    bad = {"named": [], "_rule": [], "state": []}
+    n_sc = 0
+    # (rule classes carry `name` once instantiated: Rule.__new__ stores it on the class)
+    named = [Obj("DepClass", tag="named-1", name="named-1"), Obj("DepClass", tag="named-2", name="named-2")]
+    every = [Obj("DepClass", tag="_rule-1", name="_rule-1"), Obj("DepClass", tag="_rule-2", name="_rule-2")]
+    other = [Obj("DepClass", tag="other", name="other")]
+    scenarios = [("Primary", (True, 3)), ("Primary", (False, 0)), ("Primary", (True, 1)),
+                 ("Check", None), ("Check", (False, 0)), ("Check", True), ("Check", (True, 5))]
+    try:
+        for cls_name, result in scenarios:
+            n_sc += 1
+            seen = []
+            ctx = Obj("Context", scope=Obj("Scope", instructions=0), tkn_scope=11, history=[], sub=None, state="running")
+            inst = Obj(cls_name, name="R", _native={"run": (lambda res: (lambda *x: res))(result)})
+
+            def recorder(*args, _seen=seen, _ctx=ctx, **kw):
+                dep = args[-1] if args else kw.get(params[2])
+                _seen.append((dep, args[0] if len(args) > 1 else kw.get(params[1]), _ctx.tkn_scope,
+                              _ctx.history[-1] if _ctx.history else None))
+                return (False, 0)
+            ev = Evaluator(methods, natives={("Registry", "run_rules"): recorder})
+            deps = collections.defaultdict(list)
+            deps["R"] = list(named)
+            deps["_rule"] = list(every)
+            deps["Other"] = list(other)
+            me = Obj("Registry", dependencies=deps)
+            desc = f"{cls_name} whose run() returns {result!r}"
+            try:
+                r = ev.call_function(rr.node, {params[0]: me, params[1]: ctx, params[2]: (lambda o: (lambda *x: o))(inst)})
+            except (Raised, LookupError, TypeError, ValueError, AttributeError) as e:
+                if cls_name == "Check":
+                    bad["named"].append(f"for a {desc} run_rules fails with {type(e).__name__} (the result of a check must be ignored)")
+                    bad["_rule"].append(bad["named"][-1])
+                continue
+            matched = cls_name == "Primary" and bool(result[0])
+            for which, group in (("named", named), ("_rule", every)):
+                got = [d for d, _, _, _ in seen if any(d is x for x in group)]
+                if matched:
+                    miss = [x.tag for x in group if sum(1 for d in got if d is x) != 1]
+                    if miss:
+                        bad[which].append(f"after a {desc} the dependants {miss} are not run exactly once")
+                elif got:
+                    bad[which].append(f"after a {desc} (no match) {len(got)} dependant(s) are run")
+            stray = [d for d, _, _, _ in seen if not any(d is x for x in named + every)]
+            if stray:
+                bad["named"].append(f"after a {desc} run_rules recurses on {len(stray)} rule(s) that do not depend on it")
+            if matched:
+                for d, c, ts, last in seen:
+                    if c is not ctx:
+                        bad["state"].append("a dependant is run on another context object")
+                    if ts != result[1]:
+                        bad["state"].append(f"context.tkn_scope is {ts!r} while `{d.tag}` runs; the primary consumed {result[1]} tokens")
+                    if last is not inst:
+                        bad["state"].append(f"context.history[-1] is not the matched primary while `{d.tag}` runs")
+                if not (isinstance(r, tuple) and len(r) == 2 and r[0] and r[1] == result[1]):
+                    bad["state"].append(f"run_rules answers {r!r} for a {desc}")
+            elif cls_name == "Primary" and not (isinstance(r, tuple) and len(r) == 2 and not r[0]):
+                bad["state"].append(f"run_rules answers {r!r} for a {desc}")
+    except Unsupported as e:
+        raise AnalysisError(f"{rr.key} is outside the evaluable subset of the analyser's interpreter: {e}")
+    # for the report: the recursive calls
+    site = {}
+    for n in walk_fn(rr.node):
+        if isinstance(n, ast.Call) and isinstance(n.func, ast.Attribute) and n.func.attr == "run_rules":
+            site.setdefault("named", n)
+            site["_rule"] = n
+    for k in bad:
+        bad[k] = sorted(set(bad[k]))
+    return {"bad": bad, "site": site, "scenarios": n_sc}
+
+
+def run_offers_primaries(prog, rn):
+    """Registry.run interpreted on a stub context, stub primaries (one of them filtered out by its scope tuple) and a recording
+    stub for run_rules: [problems] -- or a string (reason) when the function is outside the interpreter's subset."""
+    import collections
+    from ..minieval import Evaluator, Obj, Raised, Unsupported
+    from .c06 import _module_lookup, _stub_globals
+    reg = prog.cls("Registry")
+    methods = {("Registry", n): m.node for n, m in reg.methods.items()}
+    problems = []
+    cur, other = Obj("Scope", name="Cur"), Obj("Scope", name="Other")
+    prims = [Obj("PrimaryClass", name="P1", scope=()), Obj("PrimaryClass", name="P2", scope=(other,)),
+             Obj("PrimaryClass", name="P3", scope=(cur, other)), Obj("PrimaryClass", name="P4", scope=())]
+    try:
+        for matcher, n_tokens in ((None, 2), ("P3", 2), ("P4", 3), ("P1", 1)):
+            tokens = [Obj("Token", type="X", value=None, pos=(1, i + 1)) for i in range(n_tokens)]
+            ctx = Obj("Context", tokens=tokens, tkn_scope=0, scope=cur, debug=0, state="", history=[], file=Obj("File", name="f.c", basename="f.c"))
+            rounds = [[]]
+            events = []
+
+            def run_rules(context, rule, _r=rounds, _m=matcher, _ctx=ctx):
+                if isinstance(rule, Obj) and rule._cls == "PrimaryClass":
+                    _r[-1].append(rule.name)
+                    if rule.name == _m:
+                        return (True, len(_ctx.tokens))
+                return (False, 0)
+
+            def pop_tokens(n, _ctx=ctx, _r=rounds, _e=events):
+                _e.append(("pop", n))
+                del _ctx.tokens[:n]
+                _r.append([])
+            ev = Evaluator(methods, natives={("Registry", "run_rules"): run_rules, ("Context", "pop_tokens"): pop_tokens,
+                                             ("Context", "update"): lambda _e=events: _e.append(("update",)),
+                                             ("Context", "dprint"): lambda *a: None},
+                           lookup=_module_lookup(prog, ["registry.py"]), max_steps=100000)
+            ev.globals.update(_stub_globals())
+            ev.globals["rules"] = Obj("Rules", primaries=list(prims), checks=[], all=[])
+            me = Obj("Registry", dependencies=collections.defaultdict(list))
+            raised = None
+            try:
+                ev.call_function(rn.node, {rn.params[0]: me, rn.params[1]: ctx})
+            except Raised as e:
+                raised = e.name
+            except (LookupError, TypeError, ValueError, AttributeError) as e:
+                problems.append(f"Registry.run fails on the stub context: {type(e).__name__}: {e}")
+                continue
+            eligible = ["P1", "P3", "P4"]
+            want_first = eligible if matcher is None else eligible[: eligible.index(matcher) + 1]
+            if rounds[0] != want_first:
+                problems.append(f"with the current scope accepted by P1, P3, P4 only and {'no primary' if matcher is None else matcher} matching, "
+                                f"the primaries offered for the first statement are {rounds[0]}, expected {want_first}")
+            if matcher is None and len(rounds) > 1 and rounds[1] != eligible:
+                problems.append(f"after an unrecognised token the primaries offered are {rounds[1]}, expected {eligible}")
+            if matcher is not None and ("update",) not in events:
+                problems.append("context.update() is not called after a match")
+    except Unsupported as e:
+        if "step budget" in str(e):
+            return [f"Registry.run does not terminate on a {n_tokens}-token stub input (a round of primaries that neither matches nor "
+                    f"consumes the unrecognised token: rounds seen {[r_[:5] for r_ in rounds[:3]]})"]
+        return str(e)
+    return sorted(set(problems))
 
 
 def check(run, prog):
@@ -314,64 +460,77 @@ def check(run, prog):
     run.rule("R-2.3", "MPT: Registry.run_rules runs the dependants of the matched rule and the _rule checks on the "
              "matched path; Registry.run offers every primary (only the scope filter skips)", floor=4)
     rr = prog.fn("registry.py::Registry.run_rules")
-    g = cfg_of(rr)
-    loops = {}
-    for n in walk_fn(rr.node):
-        if isinstance(n, ast.For):
-            it = text(n.iter)
-            calls = [c for c in ast.walk(n) if isinstance(c, ast.Call) and isinstance(c.func, ast.Attribute)
-                     and c.func.attr == "run_rules"]
-            if "dependencies" in it and calls:
-                loops["_rule" if "'_rule'" in it or '"_rule"' in it else "named"] = n
+    facts = run_rules_dispatch(prog, rr)
     for which in ("named", "_rule"):
-        n = loops.get(which)
-        ok = False
-        if n is not None:
-            # reached only on the branch where the primary's result is true
-            nid = g.nid(n)
-            guard = None
-            for anc in _if_ancestors(n):
-                if text(anc.test) in ("ret", "ret is True"):
-                    guard = anc
-            ok = nid in g.reachable() and guard is not None
-        run.ob("R-2.3", f"{rr.key}::loop[{which}]", ok,
-               f"run_rules does not run the {which} dependants under the matched-rule guard", n or rr.node)
+        bad = facts["bad"][which]
+        run.ob("R-2.3", f"{rr.key}::loop[{which}]", not bad,
+               f"run_rules does not run the {which} dependants under the matched-rule guard: " + "; ".join(bad[:3]),
+               facts["site"].get(which) or rr.node, scenarios=facts["scenarios"])
+    bad = facts["bad"]["state"]
+    run.ob("R-2.3", f"{rr.key}::dependants-see-statement", not bad,
+           "the dependants of a matched primary do not see the statement just recognised: " + "; ".join(bad[:3]), rr.node)
     rn = prog.fn("registry.py::Registry.run")
     prim_loop = None
     for n in walk_fn(rn.node):
         if isinstance(n, ast.For) and text(n.iter).endswith("primaries"):
             prim_loop = n
-    ok = prim_loop is not None
-    conts = []
-    if prim_loop is not None:
-        for n in ast.walk(prim_loop):
-            if isinstance(n, ast.Continue):
-                conts.append(n)
-        for cnt in conts:
-            p = _if_ancestors(cnt)
-            if not p or "scope" not in text(p[0].test):
-                ok = False
-        calls = [c for c in ast.walk(prim_loop) if isinstance(c, ast.Call) and isinstance(c.func, ast.Attribute)
-                 and c.func.attr == "run_rules"]
-        ok = ok and len(calls) == 1
+    offered = run_offers_primaries(prog, rn)
+    if isinstance(offered, str):
+        # outside the interpreter's subset: the syntactic form
+        run.note(f"R-2.3: Registry.run not interpreted ({offered}); syntactic form used")
+        ok = prim_loop is not None
+        conts = []
+        if prim_loop is not None:
+            for n in ast.walk(prim_loop):
+                if isinstance(n, ast.Continue):
+                    conts.append(n)
+            for cnt in conts:
+                p = _if_ancestors(cnt)
+                if not p or "scope" not in text(p[0].test):
+                    ok = False
+            calls = [c for c in ast.walk(prim_loop) if isinstance(c, ast.Call) and isinstance(c.func, ast.Attribute)
+                     and c.func.attr == "run_rules"]
+            ok = ok and len(calls) == 1
+        why = ""
+    else:
+        ok, why = not offered, "; ".join(offered[:2])
     run.ob("R-2.3", f"{rn.key}::primaries-loop", ok,
-           "Registry.run does not offer every primary (loop over rules.primaries with only the scope-filter continue)",
-           prim_loop or rn.node, continues=len(conts))
-    # the value iterated is the full sorted primaries list
+           "Registry.run does not offer every primary (loop over rules.primaries with only the scope-filter continue) " + why,
+           prim_loop or rn.node)
+    # the value iterated is the full sorted primaries list; rule discovery imports every module of the rules directory
+    # (Rules.__init__ run by the analyser's interpreter on stub classes and a stub directory listing, see c06.registry_semantics)
+    from .c06 import registry_semantics
+    sem = registry_semantics(prog)
     rules_init = prog.fn("rules/__init__.py::Rules.__init__")
     src = None
     for n in walk_fn(rules_init.node):
         if isinstance(n, ast.Assign) and text(n.targets[0]) == "self.primaries":
             src = n
-    ok = src is not None and "Primary.__subclasses__()" in text(src.value, 400)
-    run.ob("R-2.3", f"{rules_init.key}::primaries", ok,
-           "Rules.primaries is not built from Primary.__subclasses__()", src or rules_init.node)
-    # rule discovery imports every module of the rules directory
     imp = [n for n in walk_fn(rules_init.node) if isinstance(n, ast.Call) and text(n.func).endswith("import_module")]
-    inloop = [n for n in imp if any(isinstance(a, ast.For) and "listdir" in text(a.iter) for a in _ancestors(n))]
-    run.ob("R-2.3", f"{rules_init.key}::discovery", bool(inloop),
-           "Rules.__init__ no longer imports every module listed in the rules directory",
+    if "rules_init" in sem["unsupported"]:
+        run.note(f"R-2.3: Rules.__init__ not interpreted ({sem['unsupported']['rules_init']}); syntactic form used")
+        ok = src is not None and "Primary.__subclasses__()" in text(src.value, 400)
+        inloop = [n for n in imp if any(isinstance(a, ast.For) and "listdir" in text(a.iter) for a in _ancestors(n))]
+        ok2 = bool(inloop)
+        why = why2 = ""
+    else:
+        ok, why = not sem["primaries"], "; ".join(sem["primaries"][:2])
+        ok2, why2 = not sem["discovery"], "; ".join(sem["discovery"][:2])
+    run.ob("R-2.3", f"{rules_init.key}::primaries", ok,
+           "Rules.primaries is not built from Primary.__subclasses__() " + why, src or rules_init.node)
+    run.ob("R-2.3", f"{rules_init.key}::discovery", ok2,
+           "Rules.__init__ no longer imports every module listed in the rules directory " + why2,
            imp[0] if imp else rules_init.node)
+    # the registry model used by R-2.1 / R-2.4 / R-2.5 assumes what Check.__init_subclass__ / Check.register /
+    # Registry.__init__ do; that assumption is observed on stub classes
+    for part, fnkey, what in (("init_subclass", "rules/rule.py::Check.__init_subclass__", "the flags a Check class gets"),
+                              ("register", "rules/rule.py::Check.register", "the slots a Check class is registered in")):
+        if part in sem["unsupported"] or (part == "register" and "registry_init" in sem["unsupported"]):
+            run.note(f"R-2.3: {fnkey} not interpreted ({sem['unsupported']}); the registry model is taken on trust")
+            continue
+        run.ob("R-2.3", f"{fnkey}::as-modelled", not sem[part],
+               f"{what} differ from the registry model the other rules are built on: " + "; ".join(sem[part][:2]),
+               prog.fn(fnkey).node)
 
 
 def _ancestors(n):
